@@ -42,3 +42,417 @@ class BASE:
     loops = [dict(types=dict(value=INT, digits=SEQ(STR)),
                   inv=lambda value, base: is_int(value) and value >= 0 and is_int(base) and 2 <= base and base <= 36,
                   variant=lambda value: value)]
+
+
+NUMARG = SCALAR
+
+
+def num_or_err(v):
+    return parse_number.spec(v)
+
+
+@contract('hotxlfp.formulas.mathtrig:ATAN2', props=['C16'])
+class ATAN2:
+    args = dict(x_num=NUMARG, y_num=NUMARG)
+
+    def pre(x_num, y_num):
+        return not is_date(x_num) and not is_date(y_num)
+
+    def spec(x_num, y_num):
+        x = num_or_err(x_num)
+        if is_err(x):
+            return x
+        y = num_or_err(y_num)
+        if is_err(y):
+            return y
+        if x == 0 and y == 0:
+            return DIV_ZERO                    # only the origin has no angle
+        return math.atan2(y, x)                # the angle of the point (x, y)
+
+
+@contract('hotxlfp.formulas.mathtrig:LOG', props=['C16'])
+class LOG:
+    args = dict(number=NUMARG)
+    cases = [dict(base=OMITTED), dict(base=NUMARG)]
+
+    def pre(number, base):
+        return not is_date(number) and (base is OMITTED or not is_date(base))
+
+    def post(number, base, out):
+        n = num_or_err(number)
+        b = 10 if base is OMITTED else num_or_err(base)
+        if is_err(n) or is_err(b):
+            return out.ret and same(out.value, VALUE)
+        if n > 0 and b > 0 and b != 1:
+            return out.ret and same(out.value, math.log(n, b))
+        return (not out.ret) or is_err(out.value)
+
+
+@contract('hotxlfp.formulas.mathtrig:LOG10', props=['C16'])
+class LOG10:
+    args = dict(number=NUMARG)
+    inline_callees = ['LOG']
+
+    def pre(number):
+        return not is_date(number)
+
+    def post(number, out):
+        n = num_or_err(number)
+        if is_err(n):
+            return out.ret and same(out.value, VALUE)
+        if n > 0:
+            return out.ret and same(out.value, math.log(n, 10))
+        return (not out.ret) or is_err(out.value)
+
+
+@contract('hotxlfp.formulas.mathtrig:PI', props=['C16'])
+class PI:
+    def spec():
+        return math.pi
+
+
+@contract('hotxlfp.formulas.mathtrig:RAND', props=['C16'])
+class RAND:
+    no_native = True
+
+    def post(out):
+        return out.ret and is_float(out.value) and 0 <= out.value and out.value < 1
+
+
+@contract('hotxlfp.formulas.mathtrig:RANDBETWEEN', props=['C16'])
+class RANDBETWEEN:
+    args = dict(bottom=INT, top=INT)
+    no_native = True
+
+    def post(bottom, top, out):
+        if bottom <= top:
+            return out.ret and is_int(out.value) and bottom <= out.value and out.value <= top
+        return (not out.ret) or is_err(out.value)
+
+
+@contract('hotxlfp.formulas.mathtrig:POWER', props=['C16'])
+class POWER:
+    args = dict(number=INT | FLOAT, power=INT | FLOAT)
+    bounded_only = True
+    reason = 'number ** power over all reals (complex results, overflow): native grid only'
+
+    def post(number, power, out):
+        if not out.ret or is_err(out.value):
+            return True
+        try:
+            exp = number ** power if abs(power) < 4096 else float(number) ** float(power)
+        except (OverflowError, ZeroDivisionError):
+            return True
+        if abs(power) >= 4096 and (abs(number) > 2**52 or abs(power) > 2**52):
+            return True         # beyond exact float conversion of the reference
+        if isinstance(exp, complex):
+            return isinstance(out.value, complex) or is_err(out.value)
+        return abs(out.value - exp) <= 1e-9 * max(1.0, abs(exp))
+
+
+# ------------------------------------------------------------------------------------------------ C17
+
+def real_floor(x):
+    return floor(x)
+
+
+def real_ceil(x):
+    return ceil(x)
+
+
+@contract('hotxlfp.formulas.mathtrig:INT', props=['C17'])
+class INT_:
+    args = dict(number=SCALAR)
+
+    def pre(number):
+        return not is_date(number)
+
+    def spec(number):
+        if not is_numb(number):
+            return VALUE
+        return floor(number)                 # INT is the floor (also for negative numbers)
+
+
+@contract('hotxlfp.formulas.mathtrig:SIGN', props=['C17'])
+class SIGN:
+    args = dict(number=SCALAR)
+
+    def pre(number):
+        return not is_date(number)
+
+    def spec(number):
+        if not is_numb(number):
+            return VALUE
+        if number == 0:
+            return 0
+        return 1 if number > 0 else -1
+
+
+@contract('hotxlfp.formulas.mathtrig:QUOTIENT', props=['C17'])
+class QUOTIENT:
+    post_exact_reals = True
+    args = dict(numerator=SCALAR, denominator=SCALAR)
+
+    def pre(numerator, denominator):
+        return not is_date(numerator) and not is_date(denominator)
+
+    def post(numerator, denominator, out):
+        n = num_or_err(numerator)
+        d = num_or_err(denominator)
+        if is_err(n) or is_err(d):
+            return out.ret and same(out.value, VALUE)
+        if d == 0:
+            return out.ret and same(out.value, DIV_ZERO)      # zero divisor: an error rather than a value
+        # the truncated quotient: the integer q of the same sign as n/d with |q| <= |n/d| < |q| + 1
+        q = out.value
+        x = real(n) / real(d)
+        return out.ret and is_int(q) and ((x >= 0 and q <= x and x < q + 1) or (x < 0 and q >= x and x > q - 1))
+
+
+@contract('hotxlfp.formulas.mathtrig:MOD', props=['C17'])
+class MOD:
+    post_exact_reals = True
+    # the remainder identity mixes floor with products of two unknowns (nonlinear integer arithmetic): most paths stay undecided
+    # within the budget and are covered by the bounded native run; error clauses and the zero divisor are proved
+    args = dict(numerator=INT | FLOAT | BOOL | STR | NONE_T | ERR, denominator=INT | FLOAT | BOOL | STR | NONE_T | ERR)
+    timeout_s = 40
+    solver_timeout_ms = 2000
+
+    def post(numerator, denominator, out):
+        n = num_or_err(numerator)
+        d = num_or_err(denominator)
+        if is_err(n):
+            return out.ret and same(out.value, n)
+        if is_err(d):
+            return out.ret and same(out.value, d)
+        if d == 0:
+            return out.ret and same(out.value, DIV_ZERO)
+        # number = divisor * integer + MOD, MOD has the divisor's sign (or is zero) and |MOD| < |divisor|
+        m = out.value
+        if not (out.ret and is_numb(m)):
+            return False
+        k = (real(n) - real(m)) / real(d)
+        return k == floor(k) and ((d > 0 and 0 <= m and m < d) or (d < 0 and d < m and m <= 0))
+
+
+@contract('hotxlfp.formulas.mathtrig:EVEN', props=['C17'])
+class EVEN:
+    args = dict(number=SCALAR)
+
+    def pre(number):
+        return not is_date(number)
+
+    def post(number, out):
+        n = num_or_err(number)
+        if is_err(n):
+            return out.ret and same(out.value, n)
+        e = out.value
+        # the nearest even integer at or beyond the number away from zero; EVEN(0) = 0
+        if not (out.ret and is_int(e) and e % 2 == 0):
+            return False
+        if n == 0:
+            return e == 0
+        if n > 0:
+            return e >= n and e - 2 < n
+        return e <= n and e + 2 > n
+
+
+@contract('hotxlfp.formulas.mathtrig:ODD', props=['C17'])
+class ODD:
+    args = dict(number=SCALAR)
+
+    def pre(number):
+        return not is_date(number)
+
+    def post(number, out):
+        n = num_or_err(number)
+        if is_err(n):
+            return out.ret and same(out.value, n)
+        o = out.value
+        # the nearest odd integer at or beyond the number away from zero; ODD(0) = 1
+        if not (out.ret and is_int(o) and o % 2 == 1):
+            return False
+        if n == 0:
+            return o == 1
+        if n > 0:
+            return o >= n and o - 2 < n
+        return o <= n and o + 2 > n
+
+
+@contract('hotxlfp.formulas.mathtrig:FACT', props=['C17'])
+class FACT:
+    args = dict(number=SCALAR)
+    bounded_args = dict(number=CHOICE(0, 1, 2, 5, 10, 20, 170, -1, -0.5, 3.9, True, None, '6', 'x', ''))
+
+    def pre(number):
+        return not is_date(number)
+
+    def post(number, out):
+        n = num_or_err(number)
+        if is_err(n):
+            return out.ret and same(out.value, n)
+        if n < 0:
+            return out.ret and same(out.value, NUM)           # negative factorial: an error rather than a value
+        return out.ret and same(out.value, math.factorial(int(n)))
+
+
+@contract('hotxlfp.formulas.mathtrig:ROUNDUP', props=['C17'])
+class ROUNDUP:
+    post_exact_reals = True
+    # real arithmetic; 10**digits is an (uninterpreted) positive quantity p: the result times p is an integer (a multiple of 10^-digits),
+    # its magnitude is >= the number's and less than one unit (1/p) above it
+    args = dict(number=INT | FLOAT, digits=INT)
+    timeout_s = 120
+
+    def post(number, digits, out):
+        if not out.ret:
+            return False
+        p = real(10 ** digits)
+        u = real(out.value) * p              # the result in units of 10^-digits
+        v = real(number) * p
+        if number >= 0:
+            return u == floor(u) and u >= v and u - v < 1
+        return u == floor(u) and u <= v and v - u < 1
+
+
+@contract('hotxlfp.formulas.mathtrig:ROUNDDOWN', props=['C17'])
+class ROUNDDOWN:
+    post_exact_reals = True
+    args = dict(number=INT | FLOAT, digits=INT)
+    timeout_s = 120
+
+    def post(number, digits, out):
+        if not out.ret:
+            return False
+        p = real(10 ** digits)
+        u = real(out.value) * p
+        v = real(number) * p
+        if number >= 0:
+            return u == floor(u) and u <= v and v - u < 1 and u >= 0
+        return u == floor(u) and u >= v and u - v < 1 and u <= 0
+
+
+@contract('hotxlfp.formulas.mathtrig:CEILING', props=['C17'])
+class CEILING:
+    post_exact_reals = True
+    # in units of |significance|: u = result / |s| is an integer adjacent to v = number / |s| on the documented side
+    args = dict(number=INT | FLOAT, significance=INT | FLOAT)
+    timeout_s = 40
+    solver_timeout_ms = 2000          # floor/ceil of a quotient of two unknowns: paths the solver leaves open fall to the native grid
+
+    def post(number, significance, out):
+        if not out.ret:
+            return False
+        if significance == 0:
+            return same(out.value, 0)
+        s = real(abs(significance))
+        u = real(out.value) / s
+        v = real(abs(number)) / s
+        if u != floor(u):
+            return False                         # a multiple of the significance
+        if number >= 0:
+            return u >= v and u - v < 1           # the adjacent multiple at or above
+        if significance > 0:
+            return -u <= v and v + u < 1          # negative number, positive significance: toward zero (= up): -u = floor(v)
+        return -u >= v and -u - v < 1             # negative number, negative significance: away from zero: -u = ceil(v)
+
+
+@contract('hotxlfp.formulas.mathtrig:FLOOR', props=['C17'])
+class FLOOR:
+    post_exact_reals = True
+    args = dict(number=INT | FLOAT, significance=INT | FLOAT)
+    timeout_s = 40
+    solver_timeout_ms = 2000
+
+    def post(number, significance, out):
+        if not out.ret:
+            return False
+        if significance == 0:
+            return same(out.value, 0)
+        if number > 0 and significance < 0:
+            return same(out.value, NUM)
+        s = real(abs(significance))
+        u = real(out.value) / s
+        v = real(abs(number)) / s
+        if u != floor(u):
+            return False
+        if number >= 0:
+            return u <= v and v - u < 1           # the adjacent multiple at or below
+        if significance > 0:
+            return -u >= v and -u - v < 1         # negative number, positive significance: away from zero (= down): -u = ceil(v)
+        return -u <= v and v + u < 1              # negative number, negative significance: toward zero: -u = floor(v)
+
+
+@contract('hotxlfp.formulas.mathtrig:DECIMAL', props=['C17'])
+class DECIMAL:
+    args = dict(text=STR, base=INT)
+
+    def pre(text, base):
+        return 2 <= base and base <= 36
+
+    def post(text, base, out):
+        if not out.ret:
+            return False
+        if is_err(out.value):
+            return same(out.value, VALUE)
+        return is_int(out.value)
+
+
+def _factdouble_domain(rng):
+    for n in range(-3, 301):
+        yield [n]
+    for x in (2.5, 7.9, '6', True, None, 'x'):
+        yield [x]
+
+
+@contract('hotxlfp.formulas.mathtrig:FACTDOUBLE', props=['C17'], bounded_only=True,
+          reason='functools.reduce over a range: induction on n; decided natively for every n <= 300')
+class FACTDOUBLE:
+    args = dict(number=SCALAR)
+    domain = _factdouble_domain
+    float_tol = 0
+
+    def post(number, out):
+        n = num_or_err(number)
+        if is_err(n):
+            return out.ret and same(out.value, n)
+        if n < 0:
+            return out.ret and same(out.value, NUM)
+        k = int(n)
+        exp = 1
+        while k > 1:
+            exp = exp * k
+            k = k - 2
+        return out.ret and out.value == exp
+
+
+def _roman_domain(rng):
+    for n in range(1, 4000):
+        for form in (0, 1, 2, 3, 4):
+            yield [n, form]
+    for n in (0, 4000, -1):
+        yield [n, 0]
+
+
+@contract('hotxlfp.formulas.mathtrig:ROMAN', props=['C17', 'C01'], bounded_only=True,
+          reason='generator + deque + table-driven loop; the domain is finite: exhaustive over 1..3999 x forms 0..4')
+class ROMAN:
+    args = dict(number=INT, form=INT)
+    domain = _roman_domain
+
+    def post(number, form, out):
+        if not (0 < number and number < 4000):
+            return out.ret and is_err(out.value)
+        if not out.ret or not is_str(out.value):
+            return False
+        # every conciseness form denotes n under the subtractive reading, and ARABIC inverts the classic form
+        vals = {'I': 1, 'V': 5, 'X': 10, 'L': 50, 'C': 100, 'D': 500, 'M': 1000}
+        total = 0
+        s = out.value
+        for i in range(len(s)):
+            v = vals[s[i]]
+            if i + 1 < len(s) and vals[s[i + 1]] > v:
+                total = total - v
+            else:
+                total = total + v
+        return total == number
